@@ -64,6 +64,13 @@ pub fn worker_main(id: &str, tier: Tier, seed: u64, shard: u32, nshards: u32, bu
     // a panic of the harness itself is a harness error (exit 3 => inconclusive), never a verdict
     let r = std::panic::catch_unwind(std::panic::AssertUnwindSafe(|| check.shard(&mut cx)));
     if r.is_err() {
+        if let Some((msg, loc, true)) = crate::sys::uncaught_panic() {
+            // the code under test panicked where no operation was being judged (constructing a
+            // screen or a parser, running a setup): not a harness error. Exit 4: C01 treats it as
+            // a crash of this group (isolated re-runs, witness), the other checks cannot evaluate
+            eprintln!("MEMTERM-PANIC outside a judged operation in group {}: {} at {}", cx.group, msg, loc);
+            return 4;
+        }
         eprintln!("HARNESS-ERROR: the monitor itself panicked in group {}", cx.group);
         return 3;
     }
@@ -317,7 +324,13 @@ pub fn run_main(o: &RunOpts) -> i32 {
     for w in workers.iter() {
         let crashed = timed_out.contains(&w.shard) || w.done.map(|s| !s.success()).unwrap_or(true);
         let harness_err = w.done.map(|s| s.code() == Some(3) || s.code() == Some(2)).unwrap_or(false);
-        if crashed && harness_err {
+        // exit 4 = the code under test panicked outside a judged operation: C01's business ("no
+        // panic for every screen of at least 1x1 cells ..."), everyone else cannot evaluate
+        let sut_panic = w.done.map(|s| s.code() == Some(4)).unwrap_or(false);
+        if crashed && sut_panic && o.id != "C01" {
+            let tail = fs::read_to_string(w.out.with_extension("err")).unwrap_or_default();
+            inconclusive.push(format!("worker {}: memterm panicked outside a judged operation, nothing could be evaluated (see C01): {}", w.shard, tail.lines().last().unwrap_or("")));
+        } else if crashed && harness_err {
             let tail = fs::read_to_string(w.out.with_extension("err")).unwrap_or_default();
             inconclusive.push(format!("worker {} stopped with a harness error: {}", w.shard, tail.lines().last().unwrap_or("")));
         } else if crashed {
@@ -392,12 +405,18 @@ pub fn run_main(o: &RunOpts) -> i32 {
                         if case.kind == "group" {
                             case.aux = json!({"tier": o.tier.name(), "seed": o.seed, "shard": w.shard, "nshards": o.jobs, "group": g, "label": label});
                         }
+                        let errtail = if sut_panic {
+                            let t = fs::read_to_string(wd.join(format!("repro_{}_0.err", w.shard))).or_else(|_| fs::read_to_string(w.out.with_extension("err"))).unwrap_or_default();
+                            format!("; {}", t.lines().last().unwrap_or(""))
+                        } else {
+                            String::new()
+                        };
                         crash_viols.push(Viol {
                             prop: o.id.clone(),
-                            clause: if last.starts_with("hang") { "hang".into() } else { "abort".into() },
+                            clause: if last.starts_with("hang") { "hang".into() } else if sut_panic { "panic".into() } else { "abort".into() },
                             op: "process".into(),
                             bucket: label.split_whitespace().next().unwrap_or("").to_string(),
-                            detail: format!("worker {} {}; group {} ({}) reproduces alone: {}", w.shard, how, g, label, last),
+                            detail: format!("worker {} {}; group {} ({}) reproduces alone: {}{}", w.shard, how, g, label, last, errtail),
                             case,
                         });
                     } else {
@@ -642,7 +661,20 @@ pub fn replay_main(path: &Path) -> i32 {
     }
     let mut cx = Ctx::new(Tier::Quick, 1, 0, 1, Duration::from_secs(60));
     cx.verbose = true;
-    check.replay(&viol.case, &mut cx);
+    crate::sys::install_panic_hook();
+    let r = std::panic::catch_unwind(std::panic::AssertUnwindSafe(|| check.replay(&viol.case, &mut cx)));
+    if r.is_err() {
+        return match crate::sys::uncaught_panic() {
+            Some((msg, loc, true)) => {
+                println!("REPRODUCED {}: memterm panicked outside a judged operation: {} at {}", viol.sig(), msg, loc);
+                1
+            }
+            _ => {
+                println!("harness error while replaying (inconclusive)");
+                2
+            }
+        };
+    }
     if cx.stats.viols.is_empty() {
         println!("no violation reproduced");
         0
